@@ -115,7 +115,7 @@ class IntegrateModel:
         # callback loop
         self.cb_loop = None
         for st in walk_no_nested(self.loop):
-            if isinstance(st, ast.For) and isinstance(st.iter, ast.Name) and st.iter.id == "callback":
+            if isinstance(st, ast.For) and any(isinstance(x, ast.Name) and x.id == "callback" for x in ast.walk(st.iter)):
                 self.cb_loop = st
         # events block
         self.ev_if = None
@@ -145,7 +145,8 @@ class IntegrateModel:
             return True
         if d.endswith("__sol.add_interpolant") or d.endswith("__sol.remove_interpolant"):
             return True
-        if isinstance(c.func, ast.Name) and c.func.id in ("i",) and self.cb_loop is not None and any(a is self.cb_loop for a in ancestors(c)):
+        if isinstance(c.func, ast.Name) and self.cb_loop is not None and any(a is self.cb_loop for a in ancestors(c)) and \
+                any(isinstance(x, ast.Name) and x.id == c.func.id for x in ast.walk(self.cb_loop.target)):
             return True
         if d == "prepare_events":
             return True
